@@ -530,6 +530,38 @@ pub fn run_case(case: &Value, keys: &Keys) -> Value {
                 _ => Policy::try_from(text).map(|f| f.to_string().len()).map_err(|_| ()),
             };
             o.insert("r".into(), json!(ok(&r)));
+            // a single item that was accepted is added to a builder and converted (token or authorizer built): no step may panic
+            match which {
+                "fact" => {
+                    if let Ok(f) = Fact::try_from(text) {
+                        if let Ok(bb) = BlockBuilder::new().fact(f) {
+                            o.insert("item_built".into(), json!(ok(&BiscuitBuilder::new().merge(bb).build(&keys.root))));
+                        }
+                    }
+                }
+                "rule" => {
+                    if let Ok(x) = Rule::try_from(text) {
+                        if let Ok(bb) = BlockBuilder::new().rule(x) {
+                            o.insert("item_built".into(), json!(ok(&BiscuitBuilder::new().merge(bb).build(&keys.root))));
+                        }
+                    }
+                }
+                "check" => {
+                    if let Ok(x) = Check::try_from(text) {
+                        if let Ok(bb) = BlockBuilder::new().check(x) {
+                            o.insert("item_built".into(), json!(ok(&BiscuitBuilder::new().merge(bb).build(&keys.root))));
+                        }
+                    }
+                }
+                "policy" => {
+                    if let Ok(x) = Policy::try_from(text) {
+                        if let Ok(ab) = AuthorizerBuilder::new().policy(x) {
+                            o.insert("item_built".into(), json!(ok(&ab.limits(limits()).build_unauthenticated())));
+                        }
+                    }
+                }
+                _ => {}
+            }
             if which == "block" {
                 if let Ok(bb) = BlockBuilder::new().code(text) {
                     let t = BiscuitBuilder::new().merge(bb).build(&keys.root);
@@ -842,7 +874,7 @@ fn gen_cases(opts: &Opts, keys: &Keys) -> Vec<Value> {
             _ => {
                 let which = *pick(&mut rng, &["block", "authorizer", "fact", "rule", "check", "policy"]);
                 let depth = *pick(&mut rng, &[10usize, 60, 200, 3000, 40000]);
-                let core = match rng.gen_range(0..16) {
+                let core = match rng.gen_range(0..17) {
                     0 => "check if f($x) trusting ed25519/00".to_string(),
                     1 => "check if f($x) trusting secp256r1/0102".to_string(),
                     2 => format!("check if f($x) trusting ed25519/{}", "ff".repeat(32)),
@@ -854,6 +886,12 @@ fn gen_cases(opts: &Opts, keys: &Keys) -> Vec<Value> {
                     8 => "h({p}) <- f({{k}: 1}) trusting {s}".to_string(),
                     9 => "check if 9223372036854775808 > 1".to_string(),
                     12 => "check if f(99999-01-01T00:00:00Z)".to_string(),
+                    // a parameter nobody binds, at closure depth 0, 1, 2 and 3: the source must be refused, not accepted and then
+                    // fail in conversion
+                    16 => pick(&mut rng, &[
+                        "check if [1, 2, 3].any($x -> $x == 0 || $x == {p})", "check if false || (true && 1 == {p})", "check if f($y), [1].all($x -> $x == {p})",
+                        "check if true && [1, 2].any($x -> [$x].all($z -> $z == {p} || false))", "check if f({p})", "check if false || {p}",
+                    ]).to_string(),
                     // statements that do not parse and hold characters of two, three and four bytes: error recovery
                     // works with positions in the text
                     13 => format!("right(\"file1\") {}; check if true", pick(&mut rng, &["\u{20ac}", "\u{e9}\u{e9}", "\u{65e5}\u{672c}", "\u{e9}\u{20ac}", "\u{10348}", "\u{e9}"])),
